@@ -67,6 +67,10 @@ pub enum BufOp {
     /// a reader that breaks the `Read` contract: it reports `extra` more bytes than the space it was given.
     /// The library refuses with a panic; the view released during that unwinding must not commit the bogus count
     ReadLies { avail: u16, extra: u16, salt: u32 },
+    /// `extend(&mut it)` from an iterator that is not fused: it ends after `pause_at` bytes and would yield the
+    /// remaining ones if asked again. One `extend` call stores the bytes up to the first end, a second call
+    /// with the same iterator stores the rest
+    ExtendResumable { len: u16, pause_at: u16, salt: u32 },
 }
 
 fn v(class: &str, keys: &[(&str, &str)], obs: String) -> Violation {
@@ -128,6 +132,26 @@ impl ReadBufferRef for DirectReader {
             return Err(io::Error::new(io::ErrorKind::InvalidData, "simulated corrupt record after a partial decode"));
         }
         Ok(buf.initialized())
+    }
+}
+
+/// An iterator that ends once after `pause_at` items and resumes when polled again.
+struct Resumable<'a> {
+    data: &'a [u8],
+    pos: usize,
+    pause_at: usize,
+    paused: bool,
+}
+impl<'a> Iterator for Resumable<'a> {
+    type Item = u8;
+    fn next(&mut self) -> Option<u8> {
+        if self.pos == self.pause_at && !self.paused {
+            self.paused = true;
+            return None;
+        }
+        let b = *self.data.get(self.pos)?;
+        self.pos += 1;
+        Some(b)
     }
 }
 
@@ -286,7 +310,7 @@ impl<'a> Run<'a> {
             self.pos += 1;
             limit -= 1;
             let remaining_before = capacity - model.len();
-            self.trace = mix(self.trace, remaining_before as u64 * 16 + depth as u64, match &op { BufOp::Write { len, .. } => 100 + *len as u64, BufOp::Extend { len, .. } => 10_000 + *len as u64, BufOp::Read { avail, fault, .. } => 100_000 + (*avail as u64) * 8 + *fault as u64, BufOp::TopRead { avail, fault, .. } => 7_000_000 + (*avail as u64) * 8 + *fault as u64, BufOp::Nested { n, cap_at, cap_at2 } => 1_000_000 + (*n as u64) * 70_000 + cap_at.map(|c| c as u64 + 1).unwrap_or(0) + cap_at2.map(|c| (c as u64 + 1) * 7).unwrap_or(0), BufOp::ExtendLoose { len, .. } => 5_000_000 + *len as u64, BufOp::NestedDropUnused { cap_at } => 6_000_000 + cap_at.map(|c| c as u64 + 1).unwrap_or(0), BufOp::FailAndExit { .. } => 3, _ => 4 });
+            self.trace = mix(self.trace, remaining_before as u64 * 16 + depth as u64, match &op { BufOp::Write { len, .. } => 100 + *len as u64, BufOp::Extend { len, .. } => 10_000 + *len as u64, BufOp::Read { avail, fault, .. } => 100_000 + (*avail as u64) * 8 + *fault as u64, BufOp::TopRead { avail, fault, .. } => 7_000_000 + (*avail as u64) * 8 + *fault as u64, BufOp::Nested { n, cap_at, cap_at2 } => 1_000_000 + (*n as u64) * 70_000 + cap_at.map(|c| c as u64 + 1).unwrap_or(0) + cap_at2.map(|c| (c as u64 + 1) * 7).unwrap_or(0), BufOp::ExtendLoose { len, .. } => 5_000_000 + *len as u64, BufOp::ExtendResumable { len, pause_at, .. } => 8_000_000 + (*len as u64) * 70_000 + *pause_at as u64, BufOp::NestedDropUnused { cap_at } => 6_000_000 + cap_at.map(|c| c as u64 + 1).unwrap_or(0), BufOp::FailAndExit { .. } => 3, _ => 4 });
             if b.remaining() != remaining_before {
                 self.viol = Some(v("remaining-wrong", &[], format!("remaining() = {} but capacity {} - {} written = {}", b.remaining(), capacity, model.len(), remaining_before)));
                 return;
@@ -390,6 +414,30 @@ impl<'a> Run<'a> {
                                 return;
                             }
                         }
+                    }
+                }
+                BufOp::ExtendResumable { len, pause_at, salt } => {
+                    let data = bytes(self.cfg.seed, salt, len as usize);
+                    let pause_at = (pause_at as usize).min(data.len());
+                    let mut it = Resumable { data: &data, pos: 0, pause_at, paused: false };
+                    let mut done = 0usize; // bytes of `data` the model has accounted for
+                    for (call, upto) in [(1, pause_at), (2, data.len())] {
+                        let room = capacity - model.len();
+                        let want = upto - done;
+                        let r = b.extend(&mut it);
+                        let now = capacity.saturating_sub(b.remaining());
+                        let stored = want.min(room);
+                        if r.is_ok() != (want <= room) || now != model.len() + stored {
+                            self.viol = Some(v(if r.is_err() && want <= room { "fitting-write-refused" } else { "count-wrong" }, &[("call", "extend-resumable-iterator")], format!("extend call #{} from an iterator that ends after {} more bytes ({} remaining): ok={} and the view counts {} initialized, expected ok={} and {}", call, want, room, r.is_ok(), now, want <= room, model.len() + stored)));
+                            return;
+                        }
+                        model.extend_from_slice(&data[done..done + stored]);
+                        if r.is_err() {
+                            self.stats.writes_refused += 1;
+                            break;
+                        }
+                        self.stats.writes_ok += 1;
+                        done = upto;
                     }
                 }
                 BufOp::ExtendLoose { len, salt } => {
@@ -920,7 +968,7 @@ impl Engine for BufEngine {
             }
         };
         for _ in 0..n {
-            match s.weighted(&[5, 4, 6, 3, 1, 2, 1, 3, 1, 2, if two_step { 3 } else { 0 }, 1, 3, 1]) {
+            match s.weighted(&[5, 4, 6, 3, 1, 2, 1, 3, 1, 2, if two_step { 3 } else { 0 }, 1, 3, 1, 2]) {
                 0 => ops.push(BufOp::Write { len: lens(&mut s), salt: s.next_u64() as u32 }),
                 1 => ops.push(BufOp::Extend { len: lens(&mut s), salt: s.next_u64() as u32 }),
                 2 => ops.push(BufOp::Read { avail: lens(&mut s).saturating_add(s.below(5) as u16), fault: *s.pick(&[0u8, 0, 1, 1, 2, 3, 4, 5, 5, 6]), salt: s.next_u64() as u32 }),
@@ -935,6 +983,10 @@ impl Engine for BufEngine {
                 10 => ops.push(BufOp::SplitView),
                 11 => ops.push(if s.chance(1, 2) { BufOp::PanicExit } else { BufOp::ExtendPanics { len: lens(&mut s).saturating_add(2), after: s.range(0, rem + 2) as u16, salt: s.next_u64() as u32 } }),
                 12 => ops.push(BufOp::TopRead { avail: lens(&mut s).saturating_add(s.below(5) as u16), fault: *s.pick(&[0u8, 0, 0, 1, 1, 2, 3, 4]), salt: s.next_u64() as u32 }),
+                14 => {
+                    let len = lens(&mut s).saturating_add(s.below(4) as u16);
+                    ops.push(BufOp::ExtendResumable { len, pause_at: s.range(0, len as u64) as u16, salt: s.next_u64() as u32 });
+                }
                 13 => ops.push(BufOp::ReadLies { avail: lens(&mut s), extra: *s.pick(&[0u16, 0, 1, 7, 300]), salt: s.next_u64() as u32 }),
                 4 => ops.push(BufOp::FailAndExit { len: s.range(0, 10) as u16 }),
                 5 => ops.push(BufOp::Reopen),
